@@ -146,3 +146,66 @@ class ModelTie:
         stats["model_tie"] = self.n
         self.nav.stop()
         self.model.stop()
+
+
+class RenameTie:
+    """model/Rename.v (rename_handler) fed with the real symbol table and the real Analysis (mosnav, greedy as the server)
+    vs the workspace edit of the real server, request by request"""
+
+    def __init__(self, chk):
+        self.chk = chk
+        self.nav = Proc([common.build_probe("harness_nav", "mosnav")])
+        self.model = Proc([common.build_model("nav")], timeout=60.0)
+        self.n = {"rename_requests": 0, "rename_order_dependent": 0}
+        self.state = None
+
+    def load(self, p):
+        files = p.files()
+        r = self.nav.call({"cmd": "nav", "files": files, "greedy": True}, timeout=60.0)
+        self.state = None
+        if "nodes" not in r:
+            self.chk.tie_break("correspondence:probe", "mosnav failed: %s" % str(r)[:300], {"files": files})
+            return
+        names = sorted(files)
+        fidx = {f: i for i, f in enumerate(names)}
+        lines = {f: t.split("\n") for f, t in files.items()}
+
+        def loc(u):
+            return [u["scope"], [fidx[u["file"].split("/")[-1]], u["l0"], u["c0"], u["l1"], u["c1"]]]
+        analysis, slices = [], []
+        for key, d in sorted(r["definitions"].items()):
+            ty = ["sym", int(key[4:])] if key.startswith("sym:") else ["file", fidx.get(key[5:].split("/")[-1], 99)]
+            analysis.append({"ty": ty, "location": loc(d["location"]) if d["location"] else None, "usages": [loc(u) for u in d["usages"]]})
+            for u in d["usages"] + ([d["location"]] if d["location"] else []):
+                f = u["file"].split("/")[-1]
+                if u["l0"] == u["l1"] and f in lines and u["l0"] < len(lines[f]):
+                    slices.append([[fidx[f], u["l0"], u["c0"], u["l1"], u["c1"]], lines[f][u["l0"]][u["c0"]:u["c1"]]])
+        self.state = {"graph": model_graph(r["nodes"]), "analysis": analysis, "slices": slices, "fuel": len(r["nodes"]) + 2,
+                      "names": names, "fidx": fidx, "found_at": {(x[0].split("/")[-1], x[1], x[2]): x[3] for x in r["found_at"]},
+                      "definitions": r["definitions"], "files": files}
+
+    def check_rename(self, p, o, col, new_name, edits):
+        st = self.state
+        if st is None:
+            return
+        found = st["found_at"].get((o.file, o.line, col), [])
+        if len(found) > 1:
+            self.n["rename_order_dependent"] += 1   # the handler takes the first of a hash map
+            return
+        m = self.model.call({"cmd": "rename", "graph": st["graph"], "analysis": st["analysis"], "slices": st["slices"], "fuel": st["fuel"],
+                             "requests": [[st["fidx"][o.file], o.line, col, new_name]]}, timeout=60.0)
+        self.n["rename_requests"] += 1
+        ans = (m.get("answers") or [None])[0]
+        if ans is None or isinstance(ans, dict):
+            got = None
+        else:
+            got = sorted((st["names"][sp[0]], sp[1], sp[2], sp[3], sp[4], text) for sp, text in ans)
+        want = sorted(edits) if edits is not None else None
+        if got != want and len([t for t in self.chk.tie_breaks if t[0] == "correspondence:rename"]) < 3:
+            self.chk.tie_break("correspondence:rename", "model and server disagree on the edit for `%s` -> `%s` at %s:%d:%d" % (o.text, new_name, o.file, o.line, col),
+                               {"files": st["files"], "position": [o.file, o.line, col], "new_name": new_name, "model": got, "server": want})
+
+    def finish(self, stats):
+        stats["rename_tie"] = self.n
+        self.nav.stop()
+        self.model.stop()
